@@ -1,4 +1,7 @@
 /-
+  UPDATE (build round 2): completeness of `binarize` for arbitrary nesting is PROVED in Properties/C08Complete.lean; the optimum over all spec-level refinements in C08Opt.lean / C08OptUn.lean.
+  (The text below is kept as written in round 1; where it says "missing" / "not proved", see the files above.)
+
   C08 — Polytomies are resolved by exploring every binary refinement exactly
   once.
 
